@@ -3,6 +3,7 @@ package props
 import (
 	"fmt"
 	"math"
+	"os"
 	"sort"
 	"time"
 
@@ -45,6 +46,13 @@ func (c08) Cases(tier string, seed uint64) []fw.Case {
 	cs := make([]fw.Case, n)
 	for i := range cs {
 		cs[i] = fw.Case{Seed: fw.CaseSeed(seed, "C08", i), Name: fmt.Sprintf("history%d", i), Params: map[string]any{"steps": steps, "pq": i%8 == 7}}
+	}
+	// sparse graphs: collinear points inserted one per batch give a chain; removing
+	// consecutive hops exercises the paths that reconnect nodes left without inbound
+	// edges - state that a warm cache hides until the shard is read cold
+	chains := n / 3
+	for i := 0; i < chains; i++ {
+		cs = append(cs, fw.Case{Seed: fw.CaseSeed(seed, "C08chain", i), Name: fmt.Sprintf("chain%d", i), Params: map[string]any{"chain": true, "rounds": steps / 2}})
 	}
 	return cs
 }
@@ -258,7 +266,149 @@ func sameAnswer(a, b answer, ranked bool) string {
 	return ""
 }
 
+// c08Chain: see Cases.
+func c08Chain(c fw.Case, env *fw.Env) *fw.CaseResult {
+	res := fw.NewResult()
+	schema := models.IndexSchema{"vec": gen.Vamana(2, models.DistanceEuclidean, 25, 32, 1.2, nil), "n": gen.Int()}
+	g := gen.New(c.Seed, schema)
+	type primary struct {
+		name string
+		s    *sx.Sx
+	}
+	prims := []primary{}
+	for _, cfg := range []struct {
+		name string
+		cm   *cache.Manager
+	}{{"file+unlimited", cache.NewManager(-1)}, {"file+tiny", cache.NewManager(300)}, {"file+disabled", cache.NewManager(0)}} {
+		s, err := sx.Open(shardPath(env, "chain-"+cfg.name), schema, cfg.cm, 0)
+		if err != nil {
+			res.Note("open: %v", err)
+			res.Inconclusive++
+			return res
+		}
+		defer s.Close()
+		prims = append(prims, primary{cfg.name, s})
+	}
+	m := model.New()
+	order := []uuid.UUID{} // ids along the line
+	step := 0
+	apply := func(op gen.Op) bool {
+		pre := m.Clone()
+		for i, p := range prims {
+			scratch := pre.Clone()
+			ok, _ := applyOp(res, "C08:"+p.name, p.s, scratch, op, step)
+			if !ok {
+				return false
+			}
+			if i == 0 {
+				*m = *scratch
+			}
+		}
+		step++
+		return true
+	}
+	compare := func(after string) {
+		for _, p := range prims {
+			cp := fmt.Sprintf("%s.cold%d", p.s.Path, step)
+			if err := sx.CopyFile(p.s.Path, cp); err != nil {
+				continue
+			}
+			cold, err := sx.Open(cp, schema, nil, 0)
+			if err != nil {
+				res.Violate("reopen-error", "C08:reopen", err.Error(), nil)
+				continue
+			}
+			res.Eval(true, "chain", c.Seed, p.name, step)
+			for _, id := range order {
+				d, live := m.Docs[id]
+				if !live {
+					continue
+				}
+				v, hasVec := model.AsVector(d, "vec")
+				if !hasVec || len(v) != 2 {
+					continue
+				}
+				q := []float32{v[0] + 1, v[1]}
+				req := models.SearchRequest{Query: models.Query{Property: "vec", VectorVamana: &models.SearchVectorVamanaOptions{Vector: q, Operator: models.OperatorNear, SearchSize: 25, Limit: 4}}, Limit: 10, Select: []string{"n"}}
+				wh, werr := p.s.Search(req)
+				ch, cerr := cold.Search(req)
+				res.Stat("warm_cold_comparisons", 1)
+				if diff := sameAnswer(answer{wh, werr}, answer{ch, cerr}, true); diff != "" {
+					res.Violate("warm-vs-cold", "C08:warm-vs-cold:"+p.name+":[vamana(chain)]", fmt.Sprintf("chain graph, %s after %s: a search next to live point n=%v is answered differently by the running instance and by a cold instance on a copy of its file: %s", p.name, after, d["n"], diff), nil)
+					break
+				}
+			}
+			cold.Close()
+			os.Remove(cp)
+		}
+	}
+	nPts := 12 + g.R.IntN(10)
+	for i := 0; i < nPts; i++ {
+		id := g.NewId()
+		order = append(order, id)
+		if !apply(gen.Op{Kind: gen.OpInsert, Tag: "chain-insert", Points: []model.Point{{Id: id, Doc: model.Doc{"vec": []float32{float32(10 * (i + 1)), 0}, "n": int64(i)}}}}) {
+			return res
+		}
+	}
+	compare("the inserts")
+	for r := 0; r < c.Int("rounds", 10); r++ {
+		live := []int{}
+		for i, id := range order {
+			if _, ok := m.Docs[id]; ok {
+				live = append(live, i)
+			}
+		}
+		if len(live) < 6 {
+			// grow the line again at the far end
+			for j := 0; j < 6; j++ {
+				id := g.NewId()
+				order = append(order, id)
+				if !apply(gen.Op{Kind: gen.OpInsert, Tag: "chain-insert", Points: []model.Point{{Id: id, Doc: model.Doc{"vec": []float32{float32(10 * (len(order))), 0}, "n": int64(len(order))}}}}) {
+					return res
+				}
+			}
+			continue
+		}
+		k := 2 + g.R.IntN(2)
+		start := 1 + g.R.IntN(len(live)-k-1)
+		if g.R.IntN(3) == 0 {
+			// the hops right before the far end: the last point loses its only inbound edge
+			start = len(live) - 1 - k
+		}
+		var op gen.Op
+		switch g.R.IntN(4) {
+		case 0: // move consecutive points far away (vector update)
+			op = gen.Op{Kind: gen.OpUpdate, Tag: fmt.Sprintf("move-%d-consecutive", k)}
+			for j := 0; j < k; j++ {
+				op.Points = append(op.Points, model.Point{Id: order[live[start+j]], Doc: model.Doc{"vec": []float32{float32(-1000 - 10*g.R.IntN(50)), float32(500 + g.R.IntN(100))}}})
+			}
+		case 1: // remove the vector field of consecutive points
+			op = gen.Op{Kind: gen.OpUpdate, Tag: fmt.Sprintf("unvector-%d-consecutive", k)}
+			for j := 0; j < k; j++ {
+				op.Points = append(op.Points, model.Point{Id: order[live[start+j]], Doc: model.Doc{"vec": model.DeleteValue}})
+			}
+		default:
+			op = gen.Op{Kind: gen.OpDelete, Tag: fmt.Sprintf("delete-%d-consecutive", k)}
+			for j := 0; j < k; j++ {
+				op.Ids = append(op.Ids, order[live[start+j]])
+			}
+		}
+		if !apply(op) {
+			return res
+		}
+		compare(op.Tag)
+		if len(res.Violations) > 4 {
+			break
+		}
+	}
+	res.Sample(map[string]any{"kind": "chain graph", "points_on_the_line": len(order), "live": len(m.Docs), "batches": step})
+	return res
+}
+
 func (c08) RunCase(c fw.Case, env *fw.Env) *fw.CaseResult {
+	if c.Bool("chain", false) {
+		return c08Chain(c, env)
+	}
 	res := fw.NewResult()
 	pq := c.Bool("pq", false)
 	schema := c08Schema(pq)
